@@ -34,6 +34,7 @@ def run(ctx):
     ctx.do(DG.rule_hd1)
     ctx.do(DG.rule_hd1_attr)
     ctx.do(NP.rule_ar1, [HYP])
+    ctx.do(MI.rule_lru1, [HYP])
     ctx.do(MI.rule_ori1)
     ctx.do(MI.rule_rng1, only={"polygon_interior_angle", "TangentVector.angle",
                                "regular_polygon_radius"})
